@@ -1,7 +1,7 @@
 (* C03 - Nothing is re-executed unless something it depends on changed. *)
 From Verif Require Import Base.Prelude Base.Graph Model.Sorter Model.Expr Model.Engine Model.EngineRun.
 From Verif Require Import Proofs.GraphProofs Proofs.SorterProofs Proofs.EngineTask Proofs.EngineLoop
-     Proofs.EngineBuild Proofs.EngineDag Proofs.EngineRefute.
+     Proofs.EngineBuild Proofs.EngineDag Proofs.EngineRefute Proofs.EngineHistory Proofs.EngineQuiet.
 
 (* a task all of whose neighbours (dependencies, source, products) equal their recorded
    rows is reported unchanged and not started, when not forced and no marker intervenes.
@@ -49,8 +49,69 @@ Theorem C03_unrelated_files_untouched : forall body c E dyn desel w t f k,
   ~ In k (prods t) -> lookup k (fs (r_world (run_task body c E dyn desel w t f))) = lookup k (fs w).
 Proof. exact task_footprint. Qed.
 
+(* ---------------------------------------------------------------- whole builds
+   a build in which every task of the project was executed or unchanged (any options, any
+   schedule) leaves rows that match every neighbour of every task ... *)
+Theorem C03_all_fresh_rows_match :
+  forall is_word lower body c ts faults pref w E desel s0,
+  create_dag is_word lower c ts = DagOk E desel ->
+  from_dag (task_ids ts) E (map (fun t => (tid t, tprio t)) ts) = Some s0 ->
+  NoDup (task_ids ts) ->
+  (forall t, In t ts -> wf_task t) -> (forall t, In t ts -> m_persist t = false) ->
+  (forall i, good_fault (faults i)) -> (forall t, In t ts -> SC body w t) ->
+  (forall t u, In t ts -> In u ts -> ~ In (tid t) (prods u) /\ ~ In (tid t) (deps u)) ->
+  (forall t, In t ts -> exists o, In (tid t, o) (x_reports (build is_word lower body c ts faults pref w)) /\ fresh_outcome o) ->
+  forall t, In t ts -> forall k, In k (neighbours E t) ->
+  row_matches (x_world (build is_word lower body c ts faults pref w)) t k.
+Proof. exact all_fresh_rows_match. Qed.
+
+(* ... and over a world in which every row matches, an unforced build - with any selection,
+   markers, schedule, in a fresh process or not - starts no task function, leaves files and
+   database exactly as they are, and reports every task as unchanged or skipped *)
+Theorem C03_quiet_build : forall is_word lower body c ts faults pref w1 E desel,
+  force c = false ->
+  create_dag is_word lower c ts = DagOk E desel ->
+  (forall t, In t ts -> forall k, In k (neighbours E t) -> row_matches w1 t k) ->
+  x_log (build is_word lower body c ts faults pref w1) = [] /\
+  x_world (build is_word lower body c ts faults pref w1) = w1 /\
+  forall i o, In (i, o) (x_reports (build is_word lower body c ts faults pref w1)) -> quiet_outcome o.
+Proof. exact quiet_build. Qed.
+
+(* "In particular, immediately repeating a successful build executes no task" *)
+Theorem C03_repeat_build_executes_nothing :
+  forall is_word lower body c c' ts faults faults' pref pref' w E desel desel' s0,
+  create_dag is_word lower c ts = DagOk E desel ->
+  from_dag (task_ids ts) E (map (fun t => (tid t, tprio t)) ts) = Some s0 ->
+  NoDup (task_ids ts) ->
+  (forall t, In t ts -> wf_task t) -> (forall t, In t ts -> m_persist t = false) ->
+  (forall i, good_fault (faults i)) -> (forall t, In t ts -> SC body w t) ->
+  (forall t u, In t ts -> In u ts -> ~ In (tid t) (prods u) /\ ~ In (tid t) (deps u)) ->
+  let r1 := build is_word lower body c ts faults pref w in
+  (forall t, In t ts -> exists o, In (tid t, o) (x_reports r1) /\ fresh_outcome o) ->
+  force c' = false -> create_dag is_word lower c' ts = DagOk E desel' ->
+  let r2 := build is_word lower body c' ts faults' pref' (x_world r1) in
+  x_log r2 = [] /\ x_world r2 = x_world r1 /\ forall i o, In (i, o) (x_reports r2) -> quiet_outcome o.
+Proof. exact repeat_build_executes_nothing. Qed.
+
+(* non-vacuity: a two-task chain (1: 101 -> 111, 2: 111 -> 112) built from scratch (both executed,
+   exit 0), then built again: nothing starts; then the source is edited and restored: still nothing *)
+Local Open Scope N_scope.
+Example C03_repeat_example :
+  let t1 := mkTask 1 1 [101] [111] [] None false [] false 0%Z [] [] in
+  let t2 := mkTask 2 1 [111] [112] [] None false [] false 0%Z [] [] in
+  let cfg := mkConfig false false None None None in
+  map (fun o => match o with (x, r, l, _, _, _) => (x, r, l) end)
+      (run_hist [] [] [HSet 101 5; HBuild cfg [t2; t1] [] []; HBuild cfg [t2; t1] [] [];
+                       HSet 101 6; HSet 101 5; HBuild cfg [t2; t1] [] []])
+  = [(0, [(1, 0); (2, 0)], [2; 3; 4; 5]); (0, [(1, 3); (2, 3)], []); (0, [(1, 3); (2, 3)], [])].
+Proof. vm_compute. reflexivity. Qed.
+Local Close Scope N_scope.
+
 Print Assumptions C03_unchanged_complete.
 Print Assumptions C03_success_then_unchanged.
 Print Assumptions C03_persist_then_unchanged.
 Print Assumptions C03_unrelated_tasks_irrelevant.
 Print Assumptions C03_unrelated_files_untouched.
+Print Assumptions C03_all_fresh_rows_match.
+Print Assumptions C03_quiet_build.
+Print Assumptions C03_repeat_build_executes_nothing.
